@@ -108,10 +108,14 @@ def int_target(xi, yi):
     return And(is_int(yi), le(absv(yi - xi), R(0.5)))
 
 
+def scaled(v, d):
+    """v * 10**d with an exact power of ten (10.0**-1 is not 1/10 in binary)"""
+    return v * R(10 ** d) if d >= 0 else v / R(10 ** (-d))
+
+
 def digits_target(d):
     def t(xi, yi):
-        p = 10.0 ** d
-        return And(is_int(yi * R(p)), le(absv(yi - xi) * R(p), R(0.5)))
+        return And(is_int(scaled(yi, d)), le(scaled(absv(yi - xi), d), R(0.5)))
     return t
 
 
@@ -381,9 +385,9 @@ def instances(tier, seed):
             out.append(Instance('integers/%s' % tag, elementwise('integers', lambda C, i: C.integers(float, index=i), int_target, is_int_hyp, n, index, kind)))
             for d in ((0, 1) if q else (0, 1, 2, -1)):
                 out.append(Instance('rounded/digits=%d/%s' % (d, tag), elementwise('rounded', lambda C, i, d=d: C.rounded(d, index=i), digits_target(d),
-                                                                                  lambda v, d=d: is_int_hyp(v * R(10.0 ** d)), n, index, kind)))
+                                                                                  lambda v, d=d: is_int_hyp(scaled(v, d)), n, index, kind)))
             out.append(Instance('precision/digits=1/%s' % tag, elementwise('precision', lambda C, i: C.precision(1, index=i), digits_target(1),
-                                                                           lambda v: is_int_hyp(v * R(10.0)), n, index, kind)))
+                                                                           lambda v: is_int_hyp(scaled(v, 1)), n, index, kind)))
     for which in ('sorting', 'monotonic'):
         for asc in (True, False):
             for index in ([None, (0, 2), (2, 0, 1), (1,)] if q else [None, (0, 2), (2, 0, 1), (1,), (-1, 0), (0, 1, 2, 3)]):
